@@ -5,8 +5,8 @@ CONSTANTS
   DynLo = 5
   WksAddr = 2
   Names = {"wk", "n1", "n2", "n3"}
-  MaxSock <- Max32
-  KindSeq <- SeqDgramT
+  MaxSock <- Max31
+  KindSeq <- SeqDgram
   Roles <- DgramOps
   Msgs = {1}
   BindAddrs <- BA
@@ -16,6 +16,9 @@ CONSTANTS
   WksCheck = TRUE
   SnlClean = TRUE
   KeepDead = FALSE
+  Miu <- MiuAB
+  Lens = {0, 2, 3, 4}
+  HdrInMiu = FALSE
 VIEW View
 INVARIANT OneAddrPerSocket
 INVARIANT NoDoubleAlloc
@@ -26,4 +29,5 @@ PROPERTY ResolveRight
 PROPERTY InUseRight
 PROPERTY ConnectByName
 PROPERTY DatagramStep
+PROPERTY Delivered
 CHECK_DEADLOCK FALSE
